@@ -109,11 +109,12 @@ def declaredNames (evs : List Ev) : List Name :=
   evs.filterMap fun e => match e with | .glob n => some n | .nonloc n => some n | _ => none
 
 /-- the block violates one of the rules:
-duplicate parameters; a parameter declared global or nonlocal; a name both global and
+duplicate parameters (a comprehension has targets, not parameters: `[0 for t, t in s]` is legal);
+a parameter declared global or nonlocal; a name both global and
 nonlocal; `nonlocal` at module level or without a binding in an enclosing function;
 use/assignment before the declaration -/
 def forbidden (b : SInfo) (chain : List SInfo) : Bool :=
-  hasDup b.params
+  (b.kind != some .comp && hasDup b.params)
   || usedBeforeDecl b.evs
   || (declaredNames b.evs).any (fun n =>
         b.params.contains n
